@@ -1008,3 +1008,183 @@ Lemma locked_accumulator_order_independent (M : Type) (op : M -> M -> M) (e : M)
   (forall a b c, op a (op b c) = op (op a b) c) -> (forall a b, op a b = op b a) -> (forall a, op e a = a) ->
   forall (l l' : list M), Permutation l l' -> msum op e l = msum op e l'.
 Proof. intros Ha Hc Hu l l' H. apply msum_perm; auto. Qed.
+
+(* =========================================================================================== *)
+(* 9. Item list as state; the error step                                                         *)
+(* =========================================================================================== *)
+(* the list after the rebuild does not depend on the list before, and is a function of the active set of the step alone *)
+Lemma rebuild_items_ignores_old (old old' : list (nat * nat)) (c : cfg) (t : nat) :
+  rebuild_items old c t = rebuild_items old' c t.
+Proof. reflexivity. Qed.
+
+Lemma rebuild_items_active_set (old old' : list (nat * nat)) (c c' : cfg) (t t' : nat) :
+  active_vars t (prep_vars t (c_vars c)) = active_vars t' (prep_vars t' (c_vars c')) ->
+  rebuild_items old c t = rebuild_items old' c' t'.
+Proof. unfold rebuild_items. intros H. rewrite H. reflexivity. Qed.
+
+Lemma items_history_spec (old : list (nat * nat)) (c : cfg) (t n : nat) :
+  forall k, k < n -> exists ck, nth k (items_history rebuild_items old c t n) [] = build_items (active_vars (t + k) (prep_vars (t + k) (c_vars ck))).
+Proof.
+  revert old c t. induction n as [|m IH]; intros old c t k Hk; [lia|].
+  cbn [items_history]. destruct k as [|k'].
+  - exists c. rewrite Nat.add_0_r. reflexivity.
+  - cbn [nth]. destruct (IH (rebuild_items old c t) (next_cfg c t) (S t) k') as [ck Hck]; [lia|].
+    exists ck. rewrite Hck. replace (S t + k') with (t + S k') by lia. reflexivity.
+Qed.
+
+(* the cached variant: two variables with timeStepFactor 2 and 3, one component each: at step 3 only variable 1 is awake but
+   the list still names variable 0 (one item before, one item now) *)
+Lemma rebuild_items_cached_refuted :
+  let c := mkCfg [mkVar 2 [true] [] [1%Z]; mkVar 3 [true] [] [1%Z]] [] false false [] in
+  items_history rebuild_items [] c 0 4 = [[(0, 0); (1, 0)]; []; [(0, 0)]; [(1, 0)]] /\
+  items_history rebuild_items_cached [] c 0 4 = [[(0, 0); (1, 0)]; []; [(0, 0)]; [(0, 0)]].
+Proof. vm_compute. split; reflexivity. Qed.
+
+(* the error step: the serial path leaves the variables AFTER the failing one (and the failing one) uncomputed, the SMP path computes them *)
+Lemma error_step_paths_differ :
+  exists (c : cfg) (t : nat) (s : store) (l : loc),
+    step_error c t = true /\
+    runi (serial_cvc_items_err c t) s l <> runi (smp_cvc_items_err c t) s l.
+Proof.
+  exists (mkCfg [mkVar 1 [true] [false] [1%Z]; mkVar 1 [true] [] [1%Z]] [] false false []), 0,
+         (fun l => match l with LIn 1 0 => 5%Z | _ => 0%Z end), (LX 1).
+  split; [reflexivity|]. vm_compute. discriminate.
+Qed.
+
+(* without an error the two component phases agree (instance of collect_phase) *)
+Lemma error_free_step_paths_agree (c : cfg) (t : nat) (s : store) :
+  step_error c t = false ->
+  (forall p, In p (active_vars t (prep_vars t (c_vars c))) -> any_true (v_flags (snd p)) = true) ->
+  seqi (runi (serial_cvc_items_err c t) s) (runi (smp_cvc_items_err c t) s).
+Proof.
+  intros _ Hall. unfold serial_cvc_items_err, smp_cvc_items_err. cbv zeta.
+  set (avs := active_vars t (prep_vars t (c_vars c))) in *.
+  assert (E : serial_vars_until_error avs = avs).
+  { clearbody avs. induction avs as [|p r IH]; cbn [serial_vars_until_error]; auto.
+    rewrite (Hall p (or_introl eq_refl)). cbn [negb]. rewrite IH; auto. intros q Hq. apply Hall. right; auto. }
+  rewrite E. rewrite smp_cvc_work_concat. fold avs. apply seq_eq_sym. apply collect_phase. apply active_vars_NoDup.
+Qed.
+
+(* =========================================================================================== *)
+(* 10. Small steps                                                                               *)
+(* =========================================================================================== *)
+Section SmallStepProofs.
+  Context {L V : Type}.
+  Variable eqb : L -> L -> bool.
+  Hypothesis eqb_spec : forall a b, eqb a b = true <-> a = b.
+  Variable items : list (item L V).
+  Hypothesis items_wf : Forall wf items.
+  Hypothesis items_indep : Pairwise indep items.
+
+  Lemma pairwise_nth {A} (R : A -> A -> Prop) (l : list A) : (forall a b, R a b -> R b a) -> Pairwise R l ->
+    forall i j a b, i <> j -> nth_error l i = Some a -> nth_error l j = Some b -> R a b.
+  Proof.
+    intros Hsym HP. induction HP as [|x r Hf Hr IH]; intros i j a b Hne Hi Hj.
+    - destruct i; cbn [nth_error] in Hi; discriminate.
+    - rewrite Forall_forall in Hf. destruct i as [|i']; destruct j as [|j']; cbn [nth_error] in Hi, Hj.
+      + exfalso. apply Hne. reflexivity.
+      + inversion Hi; subst. apply Hf. apply (nth_error_In _ _ Hj).
+      + inversion Hj; subst. apply Hsym. apply Hf. apply (nth_error_In _ _ Hi).
+      + apply (IH i' j' a b); auto.
+  Qed.
+
+  Lemma nth_wf i a : nth_error items i = Some a -> wf a.
+  Proof. intros H. rewrite Forall_forall in items_wf. apply items_wf. eapply nth_error_In; eauto. Qed.
+
+  (* every buffer in flight still agrees with the store on what its item reads *)
+  Definition bufs_ok (bufs : list (nat * (L -> V))) (s : L -> V) : Prop :=
+    forall i b a, In (i, b) bufs -> nth_error items i = Some a -> forall l, In l (reads a) -> b l = s l.
+
+  Lemma lookup_buf_In i (bufs : list (nat * (L -> V))) b : lookup_buf i bufs = Some b -> In (i, b) bufs.
+  Proof.
+    induction bufs as [|[j c] r IH]; cbn [lookup_buf]; intros H; [discriminate|].
+    destruct (Nat.eqb j i) eqn:E.
+    - apply Nat.eqb_eq in E. inversion H; subst. left; auto.
+    - right; auto.
+  Qed.
+
+  Lemma lookup_buf_keys i (bufs : list (nat * (L -> V))) : In i (map fst bufs) -> exists b, lookup_buf i bufs = Some b.
+  Proof.
+    induction bufs as [|[j c] r IH]; cbn [map lookup_buf]; intros H; [inversion H|].
+    destruct (Nat.eqb j i) eqn:E; [eauto|]. destruct H as [H|H]; [|auto].
+    cbn [fst] in H. subst. rewrite Nat.eqb_refl in E. discriminate.
+  Qed.
+
+  Lemma remove_buf_keys i (bufs : list (nat * (L -> V))) : map fst (remove_buf i bufs) = filter (fun k => negb (Nat.eqb k i)) (map fst bufs).
+  Proof.
+    unfold remove_buf. induction bufs as [|[j c] r IH]; cbn [map filter fst]; auto.
+    destruct (negb (Nat.eqb j i)); cbn [map fst]; rewrite IH; auto.
+  Qed.
+
+  Lemma pick_cons i a (r : list nat) : nth_error items i = Some a -> pick items (i :: r) = a :: pick items r.
+  Proof. intros H. unfold pick. cbn [flat_map]. rewrite H. reflexivity. Qed.
+
+  Lemma pick_cons_none i (r : list nat) : nth_error items i = None -> pick items (i :: r) = pick items r.
+  Proof. intros H. unfold pick. cbn [flat_map]. rewrite H. reflexivity. Qed.
+
+  (* the small-step execution commits the items atomically in the order of their write phases *)
+  Lemma mrun_simulates (tr : list mop) : forall (s s2 : L -> V) (bufs : list (nat * (L -> V))),
+    seq_eq s s2 -> valid_trace tr (map fst bufs) -> NoDup (map fst bufs) -> bufs_ok bufs s ->
+    seq_eq (mrun eqb items tr s bufs) (run eqb (pick items (wr_order tr)) s2).
+  Proof.
+    induction tr as [|o r IH]; intros s s2 bufs Hs Hv Hnd Hok.
+    - exact Hs.
+    - destruct o as [i|i]; cbn [mrun wr_order flat_map app valid_trace] in *.
+      + destruct Hv as [Hni Hv]. apply IH; auto.
+        * cbn [map fst]. constructor; auto.
+        * intros j b a [Hin|Hin] Hn l Hl; [inversion Hin; subst; reflexivity|]. eapply Hok; eauto.
+      + destruct Hv as [Hin Hv]. fold (wr_order r).
+        destruct (lookup_buf_keys i bufs Hin) as [b Hb]. rewrite Hb.
+        assert (Hnd' : NoDup (map fst (remove_buf i bufs))) by (rewrite remove_buf_keys; apply NoDup_filter; exact Hnd).
+        assert (Hv' : valid_trace r (map fst (remove_buf i bufs))) by (rewrite remove_buf_keys; exact Hv).
+        destruct (nth_error items i) as [a|] eqn:Ha.
+        * rewrite (pick_cons i a _ Ha). cbn [SmpModel.run].
+          assert (Hbi := lookup_buf_In _ _ _ Hb).
+          apply IH; auto.
+          -- intros l. unfold SmpModel.exec. destruct (mem eqb l (writes a)) eqn:E.
+             ++ apply (nth_wf i a Ha); [|apply (mem_In eqb eqb_spec); auto].
+                intros l' Hl'. rewrite (Hok i b a Hbi Ha l' Hl'). apply Hs.
+             ++ apply Hs.
+          -- intros j bj aj Hj Hnj l Hl. unfold remove_buf in Hj. apply filter_In in Hj. destruct Hj as [Hj Hne].
+             cbn [fst] in Hne. apply negb_true_iff in Hne. apply Nat.eqb_neq in Hne.
+             assert (Hind : indep a aj).
+             { apply (pairwise_nth indep items (fun x y => @indep_sym L V x y) items_indep i j a aj); auto. }
+             destruct Hind as (_ & Hwr & _).
+             destruct (mem eqb l (writes a)) eqn:E.
+             ++ apply (mem_In eqb eqb_spec) in E. exfalso. exact (Hwr l E Hl).
+             ++ eapply Hok; eauto.
+        * rewrite (pick_cons_none i _ Ha). apply IH; auto.
+          intros j bj aj Hj Hnj l Hl. unfold remove_buf in Hj. apply filter_In in Hj. destruct Hj as [Hj _]. eapply Hok; eauto.
+  Qed.
+
+  (* every small-step execution in which each item commits exactly once gives the store of the atomic serial execution *)
+  Lemma small_step_schedule_independent (tr : list mop) (s : L -> V) :
+    valid_trace tr [] -> Permutation (wr_order tr) (seq 0 (length items)) ->
+    seq_eq (mrun eqb items tr s []) (run eqb items s).
+  Proof.
+    intros Hv HP. eapply seq_eq_trans.
+    - apply (mrun_simulates tr s s []); auto.
+      + apply seq_eq_refl.
+      + constructor.
+      + intros i b a H; inversion H.
+    - apply seq_eq_sym. apply (run_perm eqb eqb_spec); auto. symmetry. apply pick_perm. exact HP.
+  Qed.
+End SmallStepProofs.
+
+(* one thread running its queue item after item is a well-formed trace that commits in queue order *)
+Lemma wr_order_thread (q : list nat) : wr_order (thread_mops q) = q.
+Proof. induction q as [|i q IH]; cbn; [reflexivity|]. unfold wr_order, thread_mops in IH. rewrite IH. reflexivity. Qed.
+
+Lemma valid_thread (q : list nat) : valid_trace (thread_mops q) [].
+Proof.
+  induction q as [|i q IH]; cbn; auto. split; [intros H; exact H|]. split; [left; reflexivity|].
+  rewrite Nat.eqb_refl. cbn. exact IH.
+Qed.
+
+Lemma small_step_stmt (L V : Type) (eqb : L -> L -> bool) :
+  (forall a b, eqb a b = true <-> a = b) ->
+  forall (items : list (item L V)), Forall wf items -> Pairwise indep items ->
+  forall (tr : list mop) (s : L -> V),
+  valid_trace tr [] -> Permutation (wr_order tr) (seq 0 (length items)) ->
+  seq_eq (mrun eqb items tr s []) (run eqb items s).
+Proof. intros He items Hw Hi tr s Hv HP. apply small_step_schedule_independent; auto. Qed.
